@@ -557,6 +557,11 @@ func GenCase(prop string, seed uint64, thorough bool) *Case {
 		if r.p(0.25) {
 			return genConcFault(prop, seed, g)
 		}
+	case "C20":
+		if r.p(0.15) {
+			// merged writers: the leader's batch must come back unchanged
+			return genConc(prop, seed, g, thorough)
+		}
 	case "C11":
 		if r.p(0.15) {
 			// a commit whose manifest write fails and is retried, racing Close
